@@ -580,6 +580,30 @@ impl<'a> G<'a> {
         ops
     }
 
+    /// A prelude that leaves a dozen journal files behind: keyspace `busy` is written past the
+    /// (scaled) rotation threshold and flushed over and over while keyspace `pin` gets a small
+    /// write every few rounds and is never flushed, so every sealed journal stays registered.
+    /// Journal ids pass 9 -> 10 (two digits next to one digit).
+    pub fn many_journals(&mut self, busy: KsIdx, pin: KsIdx) -> Vec<Op> {
+        self.cfg.rotation_threshold = 512;
+        self.cfg.journal_lz4 = false;
+        let mut ops = vec![];
+        let rounds = self.r.range(11, 13);
+        for i in 0..rounds {
+            let v = self.val_sized(700, false);
+            let key = self.key();
+            ops.push(Op::Insert { ks: busy, key, val: v });
+            if i % 3 == 0 {
+                let v = self.val_sized(8, true);
+                let key = self.key();
+                ops.push(Op::Insert { ks: pin, key, val: v });
+            }
+            ops.push(Op::Rotate { ks: busy });
+            ops.push(Op::WorkerStep);
+        }
+        ops
+    }
+
     /// Insert-only, strictly increasing keys (the documented FIFO domain), with reads and
     /// maintenance in between
     pub fn fifo_program(&mut self, ks: KsIdx, dens: u32) -> Vec<Op> {
